@@ -47,6 +47,7 @@ func checkC05(c *Ctx, r *Report) {
 	c05LookupOk(c, r)
 	c05ParseIntWidth(c, r, "C05.R6.parse-int-width")
 	c05MnemonicIdent(c, r, "C05.R2.mnemonic-ident")
+	c05DDDGuards(c, r, "C05.R4.ddd-guard")
 }
 
 // c05R5: numeric limit agreement: the TTL parser accepts exactly the range the 32-bit header field (and its printer) has.
